@@ -187,10 +187,17 @@ def _confirm_flags(formula: T) -> List[T]:
             for l in lits:
                 if l.op == "param" and l not in flags:
                     flags.append(l)
+                elif l.op in ("and", "or"):
+                    # a nested combination next to the prompt, e.g.
+                    # (confirm or isinstance(..)) and not prompt(..)
+                    for a in tm.atoms(l):
+                        if a.op == "param" and a not in flags:
+                            flags.append(a)
     return flags
 
 
-def guard_fold(live: T, path: T, prompt: bool) -> Optional[bool]:
+def guard_fold(live: T, path: T, prompt: bool,
+               confirm: bool = True) -> Optional[bool]:
     flags = _confirm_flags(live)
 
     def assign(a: T) -> Optional[bool]:
@@ -201,7 +208,7 @@ def guard_fold(live: T, path: T, prompt: bool) -> Optional[bool]:
         if a.op == "call" and tm.callee_name(a) == "builtins.isinstance":
             return True            # path is a str / Path
         if a in flags:
-            return True            # confirmation switched on
+            return confirm         # confirmation switched on / off
         if a.op == "iter":
             return True
         return None
@@ -256,6 +263,17 @@ def check(ctx):
                f"{kind} in {q} reachable when the prompt is accepted "
                f"(file is replaced)",
                key=f"C17.5:dead-sink:{q}:{kind}", live=fmt(e.live))
+        if _confirm_flags(e.live):
+            # "with warnings disabled the file is replaced": no answer is
+            # needed (or asked for) when the confirm flag is off
+            off = guard_fold(e.live, p, prompt=False, confirm=False)
+            ctx.ob("C17.5", e, off is not False,
+                   f"{kind} in {q}: with confirmation switched off the file "
+                   f"is written without asking" if off is not False else
+                   f"{kind} in {q}: even with confirmation switched off "
+                   f"(--no_warnings) the write depends on the overwrite "
+                   f"prompt's answer", key=f"C17.5:asks-when-off:{q}:{kind}",
+                   live=fmt(e.live))
 
     # nothing else may write after a declined prompt: covered because every
     # sink in the function is an obligation of its own.
